@@ -28,7 +28,7 @@ theorem alloc_failure_unchanged {rk : Nat → Nat} (cfg : Cfg) (s : State) (w : 
     (step cfg s (.alloc parent n fromCx true)).2 = -1 ∧
     (step cfg s (.alloc parent n fromCx true)).1.nullCtx = s.nullCtx ∧
     ∀ j : Nat, (step cfg s (.alloc parent n fromCx true)).1.get j = s.get j := by
-  have i : Inv rk s := ⟨w.toWFp, wr⟩
+  have i : InvT rk s := ⟨w.toWFp.tree, wr⟩
   simp only [step]
   unfold hdrAlloc
   by_cases hlen : n > MAXLEN
